@@ -60,6 +60,18 @@ pub fn generate(ctx: &mut Ctx) {
             bi += 1;
         }
     }
+    for len in gen::sweep_lengths() {
+        if len > 5000 {
+            continue;
+        }
+        if ctx.mine(bi) {
+            let b = "a".repeat(len);
+            for p in [format!("/{}/../{}", b, b), format!("/x/./{}", b), format!("{}/..", "s/".repeat(len)), format!("/{}y", "s/".repeat(len)), format!("/{}/.", b), format!("{}/{}/..", b, b), format!("/{}{}", "../".repeat(len.min(40)), b)] {
+                ctx.run(Case::new("path").arg(p.as_bytes()));
+            }
+        }
+        bi += 1;
+    }
     let n = ctx.by_tier(100_000u64, 1_500_000u64) / ctx.nshards;
     for i in 0..n {
         let mut rng = ctx.rng("path", i);
